@@ -445,6 +445,20 @@ def h_constants(env, N):
         v = vec_of(zero.value, N, M)
         env.goal('pauli_zero', AND(b_and(eq(v[s][0], 0), eq(v[s][1], 0)) for s in v))
         env.goal('pauli_zero_N', zero.value.N == N)
+    # the constants are fresh objects: spoiling one (in place) does not change the next one requested
+    if one.value is not None:
+        def spoil():
+            one.value.gs[0, 0] = 1
+            one.value.ps[0] = 3
+            one.value.cs[0] = 5
+        sp = env.run(spoil)
+        again = env.run(lambda: M.pa.pauli_identity(N))
+        env.goal('pauli_identity_after_spoiling_the_first', b_and(b_not(b_or(sp.raised, again.raised)), AND(b_and(eq(v2[0], 1 if s == ident else 0), eq(v2[1], 0)) for s, v2 in vec_of(again.value, N, M).items()) if again.value is not None else False))
+        summed = env.run(lambda: 2 + M.pa.pauli(oarr([1] + [0] * (2 * N - 1))) if False else (2 + M.pa.Pauli(env.const([1] + [0] * (2 * N - 1)), 0)))
+        if summed.value is not None:
+            v3 = vec_of(summed.value, N, M)
+            xs = tuple([1] + [0] * (2 * N - 1))
+            env.goal('number_plus_pauli_after_spoiling', AND(b_and(eq(v3[s][0], 2 if s == ident else (1 if s == xs else 0)), eq(v3[s][1], 0)) for s in v3))
 
 
 KINDS = ('Pauli', 'PauliMonomial', 'PauliPolynomial')
